@@ -52,6 +52,7 @@ type Exec struct {
 	topScope  *SpecScope
 	wfSeen    map[[2]*Term]bool
 	ghosts    map[string]*Value
+	staticRecv types.Type
 }
 
 func (x *Exec) fr() *frame { return x.frames[len(x.frames)-1] }
@@ -858,6 +859,8 @@ func (x *Exec) execRangeMap(s *ast.RangeStmt, st *State, label string, coll *Val
 	visSort := ArrS(ks, BoolS)
 	vis := types.NewVar(s.Pos(), x.fr().pkg, fmt.Sprintf("range%d_visited", ord), types.Typ[types.Bool])
 	cur := types.NewVar(s.Pos(), x.fr().pkg, fmt.Sprintf("range%d_key", ord), mt.Key())
+	cnt := types.NewVar(s.Pos(), x.fr().pkg, fmt.Sprintf("range%d_count", ord), types.Typ[types.Int])
+	st.env[cnt] = &Value{T: types.Typ[types.Int], Tm: IntLit(0)}
 	st.env[vis] = &Value{Tm: ConstArray(visSort, False)}
 	st.env[cur] = x.zero(mt.Key())
 	if keyObj != nil {
@@ -880,6 +883,11 @@ func (x *Exec) execRangeMap(s *ast.RangeStmt, st *State, label string, coll *Val
 		x.vc.assume(Implies(has, And(Select(d, k), Not(Select(v, k)))))
 		q := Var("qk!", ks)
 		if d == dom0 {
+			// |visited| is tracked by a ghost counter; visited ⊆ dom, and while an unvisited key
+			// exists |visited| < |dom| = len(map)  (finite-set cardinality, engine axiom)
+			n := st.env[cnt].Tm
+			ml := x.mapLen(st, mref)
+			x.vc.assume(And(Le(IntLit(0), n), Le(n, ml), Implies(has, Lt(n, ml)), Implies(Not(has), Eq(n, ml))))
 			// the loop does not modify the map: visited ⊆ dom always, so exit means visited = dom
 			x.vc.assume(Implies(Not(has), mk("=", "", BoolS, nil, v, d)))
 			x.vc.assume(Forall([]*Term{q}, Implies(mk("select", "", BoolS, nil, v, q), mk("select", "", BoolS, nil, d, q)), mk("select", "", BoolS, nil, v, q)))
@@ -901,6 +909,7 @@ func (x *Exec) execRangeMap(s *ast.RangeStmt, st *State, label string, coll *Val
 	}
 	post := func(st *State) *State {
 		st.setVar(vis, &Value{Tm: x.vc.define("vis", Store(st.env[vis].Tm, st.env[cur].Tm, True))})
+		st.setVar(cnt, &Value{T: types.Typ[types.Int], Tm: Add(st.env[cnt].Tm, IntLit(1))})
 		return st
 	}
 	sc := &SpecScope{names: map[string]*Value{}}
